@@ -251,7 +251,6 @@ class Gen:
                 return f"str({self.bool_(d - 1)})"
             if k == "str-float":
                 return f"str({self.float_(d - 1)})"
-            if k == "fstr-bool":
             return 'f"{' + self.bool_(d - 1).replace('"', "'") + '}"'
         if r.random() < 0.3:
             return r.choice(STR_LITS)
